@@ -12,6 +12,7 @@ pub mod tables;
 pub mod elem;
 pub mod emit;
 mod emit_safe;
+mod emit_abuf;
 pub mod kern;
 pub mod mem;
 pub mod oracle;
@@ -161,6 +162,7 @@ fn main() {
     let code = match args.first().map(|s| s.as_str()) {
         Some("search") => main_search(&args[1..]),
         Some("emit") => main_emit(&args[1..]),
+        Some("abufs") => emit_abuf::main_abufs(&args[1..]),
         Some("pool") => pool::main_pool(&args[1..]),
         Some("list") => {
             println!("{}", search::PROPERTIES.join(" "));
